@@ -403,6 +403,8 @@ def check_case(case):
         if mv.masked:
             nt = True
             r.label('masked-on-d')
+            if mv.fill == 0:
+                r.label('masked-on-d-fill-0')
         if mv.name == d:
             nt = True
             r.label('coordvar-on-d')
